@@ -6,7 +6,7 @@ tmp=$(mktemp -d)
 cp spec/*.tla "$tmp"/
 for f in "$tmp"/*.tla; do
   case "$(basename "$f")" in
-    Trace_*) continue ;;   # trace modules need a trace file at parse time of constants only; SANY parse is still fine
+    Trace_*) continue ;;   # trace modules read IOEnv.TRACE_FILE when evaluated; they are parsed by the checks that use them
   esac
   (cd "$tmp" && java -cp /opt/veriftools/tla/tla2tools.jar:/opt/veriftools/tla/CommunityModules-deps.jar tla2sany.SANY "$(basename "$f")" >/dev/null 2>&1) || { echo "SANY failed on $f"; rm -rf "$tmp"; exit 1; }
 done
